@@ -61,6 +61,22 @@ reg("C20",
     "Trusted: Python int arithmetic, socket.inet_pton, datetime.toordinal. Naive datetimes, literals without scope id.",
     "exhaustive enumeration + property-based testing against arithmetic oracles", "DESIGN.md#c20")
 
+reg("C11",
+    "Model-based stateful test: generated operation sequences (append, extend, pop, cleanup, avps=, msg[i]=, update_key, update_avps, "
+    "refresh; up to 15 steps) on 5 container kinds are applied to the real container and to a list-of-identities reference model; "
+    "after every step the object list, the name<->object bijection, has_avp and Message Length/Grouped data are compared. Plus an "
+    "exhaustive enumeration of all 14^4 (quick) / 14^6 (thorough) operation sequences on an empty message.",
+    "Trusted: the reference model (Python list of object identities) and reference sizes. A fresh object per insertion; operations "
+    "refused with a library error must leave state unchanged. Exhaustive to depth 4/6 only (not 12).",
+    "model-based stateful property testing + bounded exhaustive sequence enumeration", "DESIGN.md#c11")
+reg("C19",
+    "Property-based test: complete 12-key configuration dictionaries in generated key order with valid/invalid values per key and "
+    "unknown keys, through _convert_config_to_connection_obj and Diameter(config=...), plus generated YAML spec files (1..4 entries, "
+    "mixed case, omitted transport) through _convert_file_to_config; oracle = exact reflection or InvalidConfigKey/InvalidConfigValue.",
+    "Trusted: the validity classification per key in vf/checks/c19.py (Python 3.12 ipaddress semantics for malformed IPv4 strings). "
+    "Not generated: booleans, falsy TRANSPORT_TYPE, non-string IPs other than None, APPLICATIONS shape errors.",
+    "property-based testing with a validity-classifying generator (Hypothesis)", "DESIGN.md#c19")
+
 ALL = [f"C{i:02d}" for i in range(1, 21)]
 
 def main():
